@@ -5,7 +5,9 @@ import MosVerif.Generated.Facts
 import MosVerif.Lemmas.LoadCfgLemmas
 namespace MosVerif.C10
 
+/-- (the range check `cfg.Reject < 0 || cfg.Reject > 15` of `loadRule` is tied by translation:
+    `Router.rejectRange_translated` in `Lemmas/TranslatedC10.lean`) -/
 theorem pins_cfg :
-    Facts.reject_range = "cfg.Reject < 0 || cfg.Reject > 15" ∧ Facts.yaml_onedoc = "!errors.Is(err, io.EOF)" := by decide
+    Facts.yaml_onedoc = "!errors.Is(err, io.EOF)" := by decide
 
 end MosVerif.C10
